@@ -120,6 +120,20 @@ def _validate_qpd_instructions(
                 raise ValueError(
                     "Gates within the same decomposition must share an equivalent QPDBasis."
                 )
+            if len(decomp_ids) == 2 and isinstance(
+                circuit.data[gate_id].operation, TwoQubitQPDGate
+            ):
+                raise ValueError(
+                    "A TwoQubitQPDGate must be the only gate of its decomposition, but "
+                    f"index ({gate_id}) shares a decomposition with another gate."
+                )
+
+    # Make sure no instruction index is given more than once
+    flat_ids = [gate_id for decomp_ids in instruction_ids for gate_id in decomp_ids]
+    if len(set(flat_ids)) != len(flat_ids):
+        raise ValueError(
+            "Each instruction index may appear only once in instruction_ids."
+        )
 
     # Make sure the total number of QPD gate indices equals the number of QPDGates in the circuit
     num_qpd_gates = sum(len(x) for x in instruction_ids)
